@@ -524,3 +524,39 @@ contract(
          "(its own contract is separate); symmetric input",
     not_decided=["sort='Eigenvector' (_sort_vectors: determinants of permuted vector sets)", "vector_obs=True", "the symmetrisation branch"],
 )
+
+
+# Corr.GEVP with sort=None: one solve, G(ts) against G(t0)
+
+def _gevp_none_post(a, r):
+    if not isinstance(a.self, SObj):
+        import numpy as np
+        from pyvc.native import repo_module
+        co = repo_module("pyerrors.correlators")
+        vals = lambda m: np.vectorize(lambda o: o.value)(m)
+        ref = co._GEVP_solver(vals(a.self.content[a.ts]), vals(a.self.content[a.t0]))
+        return {"G(ts) solved against G(t0)": bool(np.allclose(np.asarray(r, dtype=float), np.asarray(ref, dtype=float), rtol=1e-9, atol=1e-12))}
+    return {"G(ts) solved against G(t0)": isinstance(r, AMat) and wrap(r.t == SOLVE(_G(a, a.ts), _G(a, a.t0)))}
+
+
+def _gevp_none_gen(rng, case):
+    g = _gevp_all_gen(rng, {"self": case["self"], "t0": case["t0"]})
+    g["ts"] = int(case["ts"][1:])
+    g["sort"] = None
+    return g
+
+
+contract(
+    CORR + "::Corr.GEVP", name=CORR + "::Corr.GEVP[sort=None]", props=["C16"],
+    overrides={CORR + "::_GEVP_solver": _SOLVER_STUB, CORR + "::Corr.is_matrix_symmetric": _SYM_STUB, CORR + "::Corr.__getitem__": _GETITEM2_STUB},
+    params=dict(self=OneOf(full=Custom(_gevp_corr("dddd")), tail=Custom(_gevp_corr("dddn"))),
+                t0=OneOf(t0=Const(0), t1=Const(1)), ts=OneOf(s1=Const(1), s2=Const(2), s3=Const(3)), sort=Const(None), vector_obs=Const(False),
+                kwargs=Const(CDict())),
+    requires=lambda a: {"G(t0) positive definite": wrap(SPD(VALS(a.self.attrs["content"].items[a.t0].items[0].t)))} if isinstance(a.self, SObj) else {},
+    raises=[("ValueError", lambda a: (a.ts <= a.t0) or (a.self.attrs["content"].items[a.ts] is None if isinstance(a.self, SObj) else a.self.content[a.ts] is None))],
+    ensures=_gevp_none_post,
+    axioms=axioms,
+    native_call=_gevp_all_native, gen=_gevp_none_gen, crosscheck=False, refute=False,
+    bounded="T = 4, N = 3, t0 in {0, 1}, ts in {1, 2, 3}, the last timeslice defined or not",
+    note="sort=None: the single generalised eigenvalue problem G(ts) v = lambda G(t0) v; ValueError iff ts <= t0 or the timeslice is undefined",
+)
